@@ -5,6 +5,7 @@ use crate::report::{Ctx, Real};
 use crate::rng::ScriptedRng;
 use crate::wire;
 use bls12_381::{G1Projective, G2Projective, Scalar};
+use ff::Field;
 use group::{Curve, Group};
 use rand::Rng;
 use serde_json::json;
@@ -18,6 +19,8 @@ pub trait HG: Group<Scalar = Scalar> + zkchannels_crypto::SerializeElement + Cop
     fn real(&self) -> Real;
     fn dlog_bytes(book: &Book, b: &[u8]) -> Option<Scalar>;
     fn commitment(&self) -> Commitment<Self>;
+    fn real_bytes(b: &[u8]) -> Option<Real>;
+    fn enc(book: &Book, d: &Scalar) -> Vec<u8>;
 }
 impl HG for G1Projective {
     const NAME: &'static str = "G1";
@@ -26,6 +29,13 @@ impl HG for G1Projective {
     fn real(&self) -> Real { Real::G1(self.to_affine()) }
     fn dlog_bytes(book: &Book, b: &[u8]) -> Option<Scalar> { book.dlog_g1_bytes(b) }
     fn commitment(&self) -> Commitment<Self> { wire::commitment_g1(&self.to_affine()) }
+    fn real_bytes(b: &[u8]) -> Option<Real> {
+        if b.len() != 48 { return None; }
+        let mut a = [0u8; 48];
+        a.copy_from_slice(b);
+        Option::<bls12_381::G1Affine>::from(bls12_381::G1Affine::from_compressed(&a)).map(Real::G1)
+    }
+    fn enc(book: &Book, d: &Scalar) -> Vec<u8> { wire::enc_g1(book, d) }
 }
 impl HG for G2Projective {
     const NAME: &'static str = "G2";
@@ -34,6 +44,13 @@ impl HG for G2Projective {
     fn real(&self) -> Real { Real::G2(self.to_affine()) }
     fn dlog_bytes(book: &Book, b: &[u8]) -> Option<Scalar> { book.dlog_g2_bytes(b) }
     fn commitment(&self) -> Commitment<Self> { wire::commitment_g2(&self.to_affine()) }
+    fn real_bytes(b: &[u8]) -> Option<Real> {
+        if b.len() != 96 { return None; }
+        let mut a = [0u8; 96];
+        a.copy_from_slice(b);
+        Option::<bls12_381::G2Affine>::from(bls12_381::G2Affine::from_compressed(&a)).map(Real::G2)
+    }
+    fn enc(book: &Book, d: &Scalar) -> Vec<u8> { wire::enc_g2(book, d) }
 }
 
 fn params_from<G: HG, const N: usize>(book: &Book, h: &Scalar, gs: &[Scalar]) -> PedersenParameters<G, N> {
@@ -87,8 +104,25 @@ fn one_case<G: HG, const N: usize>(ctx: &mut Ctx, idx: usize) {
     };
     ctx.count(if generated { "params:generated" } else { "params:explicit" });
     ctx.count(&format!("group:{} N:{}", G::NAME, N));
-    let ms = edge_vec(&mut ctx.prng, N);
-    let bf = edge_scalar(&mut ctx.prng);
+    let mut ms = edge_vec(&mut ctx.prng, N);
+    let mut bf = edge_scalar(&mut ctx.prng);
+    // special shapes: all-zero opening; opening whose commitment is the identity (cancellation)
+    match idx / 12 % 4 {
+        1 => {
+            ms = vec![Scalar::zero(); N];
+            bf = Scalar::zero();
+            ctx.count("shape:all-zero-opening");
+        }
+        2 if h != Scalar::zero() => {
+            let mut acc = Scalar::zero();
+            for (g, mi) in gs.iter().zip(ms.iter()) {
+                acc += g * mi;
+            }
+            bf = -acc * h.invert().unwrap();
+            ctx.count("shape:identity-commitment");
+        }
+        _ => ctx.count("shape:generic"),
+    }
     let m = wire::msg::<N>(&ms);
     // commit
     let com = m.commit(&pp, wire::bf(&bf));
